@@ -75,7 +75,12 @@ func loadProgram(cfg LoadConfig) (*Program, error) {
 		env = append(env, kv)
 	}
 	path := origPath
-	env = append(env, "GOFLAGS=-mod=mod", "GOPROXY=off", "GOSUMDB=off", "GOWORK=off")
+	env = append(env, "GOFLAGS=-mod=mod", "GOPROXY=off", "GOWORK=off")
+	if cfg.Toolchain != "auto" {
+		// (the toolchain switch of GOTOOLCHAIN=auto verifies the cached toolchain module
+		// against the checksum database cache, which GOSUMDB=off would forbid)
+		env = append(env, "GOSUMDB=off")
+	}
 	switch cfg.Toolchain {
 	case "auto":
 		// the plain `go` on PATH switches to the repository's own toolchain from the module cache
@@ -99,7 +104,7 @@ func loadProgram(cfg LoadConfig) (*Program, error) {
 	}
 	pkgs, err := packages.Load(pc, cfg.Patterns...)
 	if err != nil {
-		return nil, fmt.Errorf("go/packages: %w", err)
+		return nil, fmt.Errorf("DRIVER: go/packages: %w", err)
 	}
 	if len(pkgs) == 0 {
 		return nil, fmt.Errorf("go/packages: no packages matched %v in %s", cfg.Patterns, cfg.Dir)
